@@ -26,10 +26,10 @@ Example C16_nonvacuous :
   select (Some [98]) false [ex_pass; ex_fail; ex_xf; ex_skip] = [ex_fail] /\
   select None false [ex_pass; ex_skip] = [ex_pass] /\ select None true [ex_pass; ex_skip] = [ex_pass; ex_skip] /\
   results (loop true run [ex_fail; ex_pass] st0) = [(ex_fail, Failed)] /\
-  ~ Known_C16_body_not_executed harness_runs_body (fun _ => true) ex_body_ok ex_pass /\
-  ~ Known_C16_body_not_executed harness_runs_body (fun _ => true) ex_body_ok ex_fail /\
-  Known_C16_body_not_executed harness_runs_body (fun _ => true) ex_body_ok ex_param_fail /\
-  Known_C16_body_not_executed harness_runs_body (fun _ => true) ex_body_ok ex_async_fail.
+  ~ Known_C16_body_not_executed gen_current (fun _ => true) ex_body_ok ex_pass /\
+  ~ Known_C16_body_not_executed gen_current (fun _ => true) ex_body_ok ex_fail /\
+  Known_C16_body_not_executed gen_current (fun _ => true) ex_body_ok ex_param_fail /\
+  Known_C16_body_not_executed gen_current (fun _ => true) ex_body_ok ex_async_fail.
 Proof.
   cbv zeta. repeat split; try (vm_compute; reflexivity).
   - intros [_ [_ H]]. vm_compute in H. discriminate.
@@ -258,20 +258,20 @@ Proof.
 Qed.
 Print Assumptions C16_discovery_tests_exact.
 
-(* T11 harness truth, REFUTED for what the harness of the current tree still does not execute:
-       a test that takes parameters (fixtures, @parametrize) or is async gets no #[test]
-       (harness_runs_body = false), `cargo test` runs zero tests for it; if its body fails it is
-       reported Passed with exit 0 — or, under @xfail, XPassed with exit 1 *)
+(* T11 harness truth, REFUTED for what the harness of the current tree does not execute: a test
+       that takes parameters (fixtures, @parametrize) or is async gets no #[test], `cargo test`
+       runs zero tests for it; if its body fails it is reported Passed with exit 0 — or, under
+       @xfail, XPassed with exit 1 *)
 Theorem C16_passed_only_if_body_ran_refuted :
   exists compiles body_ok t1 t2,
-    Known_C16_body_not_executed harness_runs_body compiles body_ok t1 /\
-    Known_C16_body_not_executed harness_runs_body compiles body_ok t2 /\
+    Known_C16_body_not_executed gen_current compiles body_ok t1 /\
+    Known_C16_body_not_executed gen_current compiles body_ok t2 /\
     t_params t1 <> [] /\ t_async t2 = true /\
-    results (loop false (raw_of_harness harness_runs_body compiles body_ok) [t1] st0) = [(t1, Passed)] /\
-    exit_code (loop false (raw_of_harness harness_runs_body compiles body_ok) [t1] st0) = 0 /\
+    results (loop false (raw_of_harness gen_current compiles body_ok) [t1] st0) = [(t1, Passed)] /\
+    exit_code (loop false (raw_of_harness gen_current compiles body_ok) [t1] st0) = 0 /\
     results (loop false (raw_truth compiles body_ok) [t1] st0) = [(t1, Failed)] /\
-    results (loop false (raw_of_harness harness_runs_body compiles body_ok) [t2] st0) = [(t2, XPassed)] /\
-    exit_code (loop false (raw_of_harness harness_runs_body compiles body_ok) [t2] st0) = 1 /\
+    results (loop false (raw_of_harness gen_current compiles body_ok) [t2] st0) = [(t2, XPassed)] /\
+    exit_code (loop false (raw_of_harness gen_current compiles body_ok) [t2] st0) = 1 /\
     results (loop false (raw_truth compiles body_ok) [t2] st0) = [(t2, XFailed [107])].
 Proof.
   exists (fun _ => true), ex_body_ok, ex_param_fail, ex_async_fail.
@@ -285,15 +285,17 @@ Print Assumptions C16_passed_only_if_body_ran_refuted.
 Theorem C16_body_never_run_fixed : forall compiles body_ok t,
   t_params t = [] -> t_async t = false -> compiles t = true -> body_ok t = false ->
   find_skip (t_markers t) = None ->
-  ~ Known_C16_body_not_executed harness_runs_body compiles body_ok t /\
-  let s := loop false (raw_of_harness harness_runs_body compiles body_ok) [t] st0 in
+  ~ Known_C16_body_not_executed gen_current compiles body_ok t /\
+  let s := loop false (raw_of_harness gen_current compiles body_ok) [t] st0 in
   (find_xfail (t_markers t) = None -> results s = [(t, Failed)] /\ exit_code s = 1) /\
   (forall reason, find_xfail (t_markers t) = Some reason -> results s = [(t, XFailed reason)] /\ exit_code s = 0).
 Proof.
   intros compiles body_ok t Hp Ha Hc Hb Hs.
   assert (Hr : harness_runs_body t = true) by (apply harness_runs_body_spec; split; assumption).
+  assert (He : harness_executes (gen_current t) = [t]) by (rewrite gen_current_executes, Hr; reflexivity).
   split; [intros [K _]; congruence|]. cbv zeta.
-  unfold loop, step, raw_of_harness, exit_code. rewrite Hs, Hr, Hc, Hb. cbn [negb orb andb].
+  unfold loop, step, exit_code. rewrite (raw_own_body gen_current compiles body_ok t He).
+  unfold raw_truth. rewrite Hs, Hc, Hb. cbn [andb].
   split.
   - intro Hx. rewrite Hx. cbn. split; reflexivity.
   - intros reason Hx. rewrite Hx. cbn. split; reflexivity.
@@ -301,26 +303,27 @@ Qed.
 Print Assumptions C16_body_never_run_fixed.
 
 Example C16_body_never_run_fixed_witness :
-  results (loop false (raw_of_harness harness_runs_body (fun _ => true) ex_body_ok) [ex_pass; ex_fail; ex_xf] st0)
+  results (loop false (raw_of_harness gen_current (fun _ => true) ex_body_ok) [ex_pass; ex_fail; ex_xf] st0)
   = [(ex_pass, Passed); (ex_fail, Failed); (ex_xf, XFailed [107])].
 Proof. vm_compute. reflexivity. Qed.
 
-(* T12 harness truth on the complement of the known class: if no selected test is in the class
-       (in particular: whenever every selected test is parameterless and not async), the whole final
-       state — verdicts, counters, executed trace, exit status — is the truthful one, and then
-       Passed means the body ran to completion without failing, Failed means it did not *)
-Theorem C16_truthful_outside_known_class : forall stop runs_body compiles body_ok ts,
-  (forall t, In t ts -> ~ Known_C16_body_not_executed runs_body compiles body_ok t) ->
-  let s := loop stop (raw_of_harness runs_body compiles body_ok) ts st0 in
+(* T12 harness truth on the complement of the known class, for ANY generated harness that is
+       isolated (the harness run for t executes nothing but t): if no selected test is in the class,
+       the whole final state — verdicts, counters, executed trace, exit status — is the truthful
+       one, and then Passed means the body ran to completion without failing, Failed means it did not *)
+Theorem C16_truthful_outside_known_class : forall stop gen compiles body_ok ts,
+  (forall t, In t ts -> isolated gen t) ->
+  (forall t, In t ts -> ~ Known_C16_body_not_executed gen compiles body_ok t) ->
+  let s := loop stop (raw_of_harness gen compiles body_ok) ts st0 in
   s = loop stop (raw_truth compiles body_ok) ts st0 /\
   (forall t, In (t, Passed) (results s) -> compiles t = true /\ body_ok t = true) /\
   (forall t, In (t, Failed) (results s) -> compiles t = false \/ body_ok t = false) /\
   (forall t, In (t, XPassed) (results s) -> compiles t = true /\ body_ok t = true) /\
   (forall t reason, In (t, XFailed reason) (results s) -> compiles t = false \/ body_ok t = false).
 Proof.
-  intros stop rb compiles body_ok ts Hk. cbv zeta.
-  assert (E : loop stop (raw_of_harness rb compiles body_ok) ts st0 = loop stop (raw_truth compiles body_ok) ts st0).
-  { apply loop_ext. intros t Hin _. apply raw_complement. apply Hk. exact Hin. }
+  intros stop gen compiles body_ok ts Hi Hk. cbv zeta.
+  assert (E : loop stop (raw_of_harness gen compiles body_ok) ts st0 = loop stop (raw_truth compiles body_ok) ts st0).
+  { apply loop_ext. intros t Hin _. apply raw_complement; [apply Hi | apply Hk]; exact Hin. }
   rewrite E. split; [reflexivity|].
   pose proof (loop_st0 stop (raw_truth compiles body_ok) ts) as H. cbv zeta in H. destruct H as [H1 _]. rewrite H1.
   assert (V : forall t r, In (t, r) (verdicts stop (raw_truth compiles body_ok) ts) ->
@@ -346,37 +349,41 @@ Proof.
 Qed.
 Print Assumptions C16_truthful_outside_known_class.
 
-(* T12b the same for the harness of the current tree, with the class spelled out: a run whose
-       selected tests are all parameterless and not async is reported truthfully *)
+(* T12b the same for the harness of the current tree (which is isolated for every test), with the
+       class spelled out: a run whose selected tests are all parameterless and not async is reported
+       truthfully, whatever other functions the files contain *)
 Theorem C16_truthful_for_plain_tests : forall stop compiles body_ok ts,
   (forall t, In t ts -> t_params t = [] /\ t_async t = false) ->
-  loop stop (raw_of_harness harness_runs_body compiles body_ok) ts st0 = loop stop (raw_truth compiles body_ok) ts st0.
+  loop stop (raw_of_harness gen_current compiles body_ok) ts st0 = loop stop (raw_truth compiles body_ok) ts st0.
 Proof.
   intros stop compiles body_ok ts H.
-  apply (C16_truthful_outside_known_class stop harness_runs_body compiles body_ok ts).
-  intros t Hin [K _]. apply H in Hin. apply harness_runs_body_spec in Hin. congruence.
+  apply (C16_truthful_outside_known_class stop gen_current compiles body_ok ts).
+  - intros t _. exact (gen_current_isolated t).
+  - intros t Hin [K _]. apply H in Hin. apply harness_runs_body_spec in Hin.
+    rewrite gen_current_executes, Hin in K. discriminate.
 Qed.
 Print Assumptions C16_truthful_for_plain_tests.
 
-(* T13 the class is exact: a test whose body the harness runs is never in it (for the current
-       harness: exactly the tests with parameters or async can be), and every member that is not
-       @skip IS misreported (its good/bad status is inverted) *)
-Theorem C16_known_class_exact : forall runs_body compiles body_ok t,
-  (runs_body t = true -> ~ Known_C16_body_not_executed runs_body compiles body_ok t) /\
-  (known_body_not_executedb runs_body compiles body_ok t = true <-> Known_C16_body_not_executed runs_body compiles body_ok t) /\
-  (Known_C16_body_not_executed harness_runs_body compiles body_ok t -> t_params t <> [] \/ t_async t = true) /\
-  (Known_C16_body_not_executed runs_body compiles body_ok t -> find_skip (t_markers t) = None ->
-     verdict (t_markers t) (raw_of_harness runs_body compiles body_ok t) <>
+(* T13 the class is exact: a test the harness executes is never in it (for the current harness:
+       exactly the tests with parameters or async can be), and every member that is not @skip IS
+       misreported (its good/bad status is inverted) *)
+Theorem C16_known_class_exact : forall gen compiles body_ok t,
+  (harness_executes (gen t) <> [] -> ~ Known_C16_body_not_executed gen compiles body_ok t) /\
+  (known_body_not_executedb gen compiles body_ok t = true <-> Known_C16_body_not_executed gen compiles body_ok t) /\
+  (Known_C16_body_not_executed gen_current compiles body_ok t -> t_params t <> [] \/ t_async t = true) /\
+  (Known_C16_body_not_executed gen compiles body_ok t -> find_skip (t_markers t) = None ->
+     verdict (t_markers t) (raw_of_harness gen compiles body_ok t) <>
      verdict (t_markers t) (raw_truth compiles body_ok t) /\
-     is_bad (verdict (t_markers t) (raw_of_harness runs_body compiles body_ok t)) =
+     is_bad (verdict (t_markers t) (raw_of_harness gen compiles body_ok t)) =
      negb (is_bad (verdict (t_markers t) (raw_truth compiles body_ok t)))).
 Proof.
-  intros rb compiles body_ok t. split; [|split; [|split]].
+  intros gen compiles body_ok t. split; [|split; [|split]].
   - intros H [K _]. congruence.
-  - exact (known_body_not_executedb_spec rb compiles body_ok t).
-  - intros [K _]. unfold harness_runs_body in K. destruct (t_params t); [|left; discriminate].
-    right. apply negb_false_iff in K. exact K.
-  - exact (known_class_misreported rb compiles body_ok t).
+  - exact (known_body_not_executedb_spec gen compiles body_ok t).
+  - intros [K _]. rewrite gen_current_executes in K. unfold harness_runs_body in *.
+    destruct (t_params t); [|left; discriminate].
+    right. destruct (t_async t); [reflexivity | discriminate].
+  - exact (known_class_misreported gen compiles body_ok t).
 Qed.
 Print Assumptions C16_known_class_exact.
 
@@ -428,34 +435,110 @@ Proof.
   - vm_compute. reflexivity.
 Qed.
 
-(* T16 "passed only if its body actually RAN": for tests the harness executes (the current
-       harness: parameterless, not async) every Passed/XPassed verdict is of a test whose body did
-       run, to completion; for a test the harness does not execute even a correct PASSED is not
-       backed by an execution (refuted half, witness: a passing test with a parameter) *)
-Theorem C16_passed_means_body_ran : forall stop runs_body compiles body_ok ts t,
-  (forall t0, In t0 ts -> runs_body t0 = true) ->
-  let s := loop stop (raw_of_harness runs_body compiles body_ok) ts st0 in
+(* T16 "passed only if its body actually RAN": if the harness generated for each selected test
+       executes exactly that test (the current harness for parameterless non-async tests), every
+       Passed/XPassed verdict is of a test whose body did run, to completion; for a test the harness
+       does not execute even a correct PASSED is not backed by an execution (refuted half) *)
+Theorem C16_passed_means_body_ran : forall stop gen compiles body_ok ts t,
+  (forall t0, In t0 ts -> harness_executes (gen t0) = [t0]) ->
+  let s := loop stop (raw_of_harness gen compiles body_ok) ts st0 in
   In (t, Passed) (results s) \/ In (t, XPassed) (results s) ->
-  body_ran runs_body compiles t = true /\ body_ok t = true.
+  body_ran gen compiles t = true /\ body_ok t = true.
 Proof.
-  intros stop rb compiles body_ok ts t Hrb. cbv zeta. intro H.
-  pose proof (C16_truthful_outside_known_class stop rb compiles body_ok ts) as K. cbv zeta in K.
-  assert (Hk : forall t0, In t0 ts -> ~ Known_C16_body_not_executed rb compiles body_ok t0).
-  { intros t0 Hin [A _]. rewrite (Hrb t0 Hin) in A. discriminate. }
-  destruct (K Hk) as [_ [P1 [_ [P2 _]]]].
+  intros stop gen compiles body_ok ts t Hex. cbv zeta. intro H.
+  pose proof (C16_truthful_outside_known_class stop gen compiles body_ok ts) as K. cbv zeta in K.
+  assert (Hi : forall t0, In t0 ts -> isolated gen t0).
+  { intros t0 Hin u Hu. rewrite (Hex t0 Hin) in Hu. destruct Hu as [Hu | []]. symmetry. exact Hu. }
+  assert (Hk : forall t0, In t0 ts -> ~ Known_C16_body_not_executed gen compiles body_ok t0).
+  { intros t0 Hin [A _]. rewrite (Hex t0 Hin) in A. discriminate. }
+  destruct (K Hi Hk) as [_ [P1 [_ [P2 _]]]].
   assert (Hin : In t ts).
-  { pose proof (loop_st0 stop (raw_of_harness rb compiles body_ok) ts) as L. cbv zeta in L. destruct L as [L _].
+  { pose proof (loop_st0 stop (raw_of_harness gen compiles body_ok) ts) as L. cbv zeta in L. destruct L as [L _].
     rewrite L in H. destruct H as [H | H]; apply verdicts_in in H; exact (proj1 H). }
-  unfold body_ran. rewrite (Hrb t Hin). cbn [andb].
-  destruct H as [H | H]; [exact (P1 t H) | exact (P2 t H)].
+  assert (PC : compiles t = true /\ body_ok t = true) by (destruct H as [H | H]; [exact (P1 t H) | exact (P2 t H)]).
+  destruct PC as [Pc Pb]. split; [|exact Pb].
+  unfold body_ran. rewrite (Hex t Hin), Pc. cbn [existsb andb orb]. rewrite str_eqb_refl. reflexivity.
 Qed.
 Print Assumptions C16_passed_means_body_ran.
 
 Theorem C16_passed_means_body_ran_refuted :
   exists compiles body_ok t,
-    In (t, Passed) (results (loop false (raw_of_harness harness_runs_body compiles body_ok) [t] st0)) /\
-    body_ok t = true /\ body_ran harness_runs_body compiles t = false /\ t_params t <> [].
+    In (t, Passed) (results (loop false (raw_of_harness gen_current compiles body_ok) [t] st0)) /\
+    body_ok t = true /\ body_ran gen_current compiles t = false /\ t_params t <> [].
 Proof.
   exists (fun _ => true), (fun _ => true), ex_param_fail. repeat split; try (vm_compute; auto). vm_compute. discriminate.
 Qed.
 Print Assumptions C16_passed_means_body_ran_refuted.
+
+(* T18 the verdict of a test depends only on ITS OWN body: for any generated harness that marks
+       exactly the selected function with #[test] and whose libtest filter (if any) selects that
+       function's name, the raw verdict of t is the truthful one and does not change when the
+       bodies of other functions change; the harness of the current tree has this shape for every
+       parameterless non-async test *)
+Theorem C16_verdict_depends_only_on_own_body : forall gen compiles body_ok body_ok' t,
+  h_marked (gen t) = [t] -> libtest_selects (h_filter (gen t)) (t_name t) = true ->
+  body_ok t = body_ok' t ->
+  raw_of_harness gen compiles body_ok t = raw_truth compiles body_ok t /\
+  raw_of_harness gen compiles body_ok t = raw_of_harness gen compiles body_ok' t.
+Proof.
+  intros gen compiles body_ok body_ok' t Hm Hf Hb.
+  assert (He : harness_executes (gen t) = [t]).
+  { unfold harness_executes. rewrite Hm. cbn [filter]. rewrite Hf. reflexivity. }
+  rewrite !(raw_own_body gen compiles _ t He). split; [reflexivity|].
+  unfold raw_truth. rewrite Hb. reflexivity.
+Qed.
+Print Assumptions C16_verdict_depends_only_on_own_body.
+
+Theorem C16_current_harness_marks_exactly_selected : forall t,
+  t_params t = [] -> t_async t = false ->
+  h_marked (gen_current t) = [t] /\ h_filter (gen_current t) = None /\
+  libtest_selects (h_filter (gen_current t)) (t_name t) = true.
+Proof.
+  intros t Hp Ha. assert (Hr : harness_runs_body t = true) by (apply harness_runs_body_spec; split; assumption).
+  unfold gen_current. rewrite Hr. cbn. repeat split.
+Qed.
+Print Assumptions C16_current_harness_marks_exactly_selected.
+
+(* T19 REFUTED otherwise: with #[test] on every test function of the file and the selected name
+       passed as a libtest filter WITHOUT --exact (a substring filter), the verdict of a passing
+       test_add depends on the body of test_add_big: it is reported Failed (exit 1) because the
+       sibling fails, and an @xfail test with a passing body is reported XFailed (exit 0, a false
+       green) instead of XPassed *)
+Definition ex_add : test := {| t_path := [[116]]; t_name := s_test_ ++ [97; 100; 100]; t_markers := []; t_fixtures := []; t_params := []; t_async := false |}.
+Definition ex_add_big : test :=
+  {| t_path := [[116]]; t_name := s_test_ ++ [97; 100; 100; 95; 98; 105; 103]; t_markers := [MSkip []]; t_fixtures := []; t_params := []; t_async := false |}.
+Definition ex_xadd : test := {| t_path := [[116]]; t_name := s_test_ ++ [97; 100; 100]; t_markers := [MXFail []]; t_fixtures := []; t_params := []; t_async := false |}.
+
+Theorem C16_verdict_depends_on_sibling_refuted :
+  let file := fun _ : test => [ex_add; ex_add_big] in
+  let xfile := fun _ : test => [ex_xadd; ex_add_big] in
+  let sibling_fails := fun u : test => negb (str_eqb (t_name u) (t_name ex_add_big)) in
+  let gen := gen_all_marked false file in
+  raw_of_harness gen (fun _ => true) (fun _ => true) ex_add = RPass /\
+  raw_of_harness gen (fun _ => true) sibling_fails ex_add = RFail /\
+  sibling_fails ex_add = true /\ raw_truth (fun _ => true) sibling_fails ex_add = RPass /\
+  ~ isolated gen ex_add /\
+  results (loop false (raw_of_harness gen (fun _ => true) sibling_fails) [ex_add; ex_add_big] st0)
+    = [(ex_add, Failed); (ex_add_big, Skipped [])] /\
+  results (loop false (raw_truth (fun _ => true) sibling_fails) [ex_add; ex_add_big] st0)
+    = [(ex_add, Passed); (ex_add_big, Skipped [])] /\
+  exit_code (loop false (raw_of_harness (gen_all_marked false xfile) (fun _ => true) sibling_fails) [ex_xadd; ex_add_big] st0) = 0 /\
+  exit_code (loop false (raw_truth (fun _ => true) sibling_fails) [ex_xadd; ex_add_big] st0) = 1.
+Proof.
+  cbv zeta. repeat split; try (vm_compute; reflexivity).
+  intro H. assert (E : ex_add_big = ex_add).
+  { apply H. vm_compute. right. left. reflexivity. }
+  discriminate.
+Qed.
+Print Assumptions C16_verdict_depends_on_sibling_refuted.
+
+(* T20 the same design WITH --exact is isolated (and hence truthful by T12) as soon as function
+       names are unique in the file: the substring semantics of the filter is what breaks it *)
+Theorem C16_exact_filter_isolated : forall file_tests t,
+  (forall u, In u (file_tests t) -> t_name u = t_name t -> u = t) ->
+  isolated (gen_all_marked true file_tests) t.
+Proof.
+  intros file_tests t Hu u Hin. apply gen_all_marked_in in Hin. destruct Hin as [H1 [_ H3]].
+  apply Hu; [exact H1 | symmetry; exact H3].
+Qed.
+Print Assumptions C16_exact_filter_isolated.
